@@ -337,7 +337,7 @@ mzd_t *mzd_from_jcf(const char *fn, int verbose) {
 
   while (fscanf(fh, "%ld\n", &j) == 1) {
     if (j < 0) { i++, j = -j; }
-    if (((j - 1) >= n) || (i >= m))
+    if (((j - 1) >= n) || ((j - 1) < 0) || (i >= m) || (i < 0))
       m4ri_die("trying to write to (%ld,%ld) in %ld x %ld matrix\n", i, j - 1, m, n);
     mzd_write_bit(A, i, j - 1, 1);
   };
